@@ -198,6 +198,39 @@ PROPS['C14'] = dict(
     explanation='Receiver: a stream cut at any byte yields a prefix of the sent frames, garbage frames are skipped (C14_cut_prefix, C14_resync). Sender: dead letter iff all limit+1 attempts fail (closed form), recovery with budget >= 1, one fault costs at most one message, delivered/dead are an order-preserving partition of the sent sequence (C14_partition).',
 )
 
+def access_report(pid, tier, seed, info):
+    """C10: name the unprotected conflicting accesses of the regenerated table (empty when race free)."""
+    import subprocess, os
+    lean = os.path.join(os.path.dirname(os.path.abspath(__file__)), 'lean')
+    p = subprocess.run(['lake', 'env', 'lean', '--run', 'Vivid/Tools/AccessReport.lean'], cwd=lean, stdout=subprocess.PIPE, stderr=subprocess.STDOUT, timeout=600)
+    out = p.stdout.decode(errors='replace')
+    lines = [l for l in out.split('\n') if l.startswith('UNPROTECTED: ')]
+    info['access_report'] = out[-1500:]
+    res = [('proof', 'access table: ' + l, {}) for l in lines[:6]]
+    if p.returncode != 0 and not lines:
+        res.append(('tie', 'access report failed: ' + out[-600:], {}))
+    return res
+
+
+PROPS['C10'] = dict(
+    modules=['Vivid.Props.C10'],
+    gens=['access'],
+    race=True,
+    engines=[dict(name='conc', nomodel=True, must_hit=['scenario:spawn-die', 'scenario:spawn-kill', 'scenario:spawn-fail', 'scenario:ask', 'scenario:es', 'scenario:ref'])],
+    extra_steps=[access_report],
+    rule='Proof side: the access table (every read/write of a struct field in internal/actor and internal/future reachable from the documented-concurrent entry points or from the message handler, with the locks lexically held, '
+         'atomic operations, publication idioms CAS-winner / close(done) / <-done as pseudo-locks, goroutine role) is regenerated from the source by harness/access (go/ast) and the lockset discipline is decided on the whole table by the kernel. '
+         'conc (monitor only, race-detector build, one child process per scenario, 8 goroutines x 300 (thorough 3000) iterations): System.ActorOf against children dying / being killed / failing, Tell/Ask/Kill/FindActor, futures from several goroutines, '
+         'event-stream Subscribe/Publish/Unsubscribe from outside and inside actors, one shared ActorRef while its target is re-created: a fatal runtime error, a race report in vivid code, or an inconsistent tree / leak at quiescence is a violation.',
+    trusted_base=COMMON_TRUST + ['the extractor harness/access (syntactic: go/ast + local type inference; calls through interfaces and user callbacks are thread boundaries it does not follow; closures run synchronously unless go / time.AfterFunc)',
+                                 'the entry-point list (the concurrent API named by C10; other exported Context methods are handler-only) and the role rule: handler accesses of one actor are serialised by the mailbox token (C01)',
+                                 'Go memory model facts used as lock semantics: sync.Mutex/RWMutex exclusion, uniqueness of a CompareAndSwap(false,true) winner, close(ch) happens-before a receive that observes it',
+                                 'Go race detector and runtime map-race check as the oracles of the stress engine'],
+    assumptions=['instance-insensitive: all objects of one struct type share a row set (sound, may over-report)', 'Start/Stop are not in C10\'s API list: their accesses have role lifecycle and conflict with nothing',
+                 'partial: "no crash" beyond data races and "tree consistency" are observed by the stress engine at quiescence, not proved; fields of sync/atomic/chan types are self-synchronised and omitted'],
+    explanation='Lockset theorem over an acquire/release LTS (mutual exclusion invariant by induction) + kernel-decided discipline on the table regenerated from the source; the stress engine under the race detector is the search for a failing schedule.',
+)
+
 # Text of level_claimed per property (MANIFEST); NOT_APPLICABLE: properties not claimed, with reason.
 LEVEL_TEXT = {}
 NOT_APPLICABLE = {}
